@@ -155,16 +155,42 @@ def run_toc(case):
 
             def on_connected(uri):
                 rounds = len([1 for e in rec.names() if e == 'connected'])
+                cur = env.world.device.spec
                 lbl = '%s round %d' % (label, rounds)
                 if cf.log.toc is None:
                     out.fail('toc:log:missing', lbl)
                 else:
-                    _compare(out, 'log', cf.log.toc, spec['log_toc'], lbl)
-                _compare(out, 'param', cf.param.toc, spec['param_toc'], lbl)
+                    _compare(out, 'log', cf.log.toc, cur['log_toc'], lbl)
+                _compare(out, 'param', cf.param.toc, cur['param_toc'], lbl)
                 snaps.append(rounds)
             cf.connected.add_callback(on_connected)
-            rounds = 2 if case['cache'] else 1
+            rounds = 2 if (case['cache'] or case.get('second')) else 1
+            from vlib.simcf import SimDevice
             for r in range(rounds):
+                if r == 1 and case.get('second'):
+                    # "new firmware": the same Crazyflie object reconnects to a device with different tables
+                    c2 = dict(case)
+                    c2.update(case['second'])
+                    # a checksum identifies one table: different tables never share one
+                    used_crcs = {case['log_crc'], case['param_crc']}
+                    for key in ('log_crc', 'param_crc'):
+                        while c2[key] in used_crcs:
+                            c2[key] = (c2[key] + 0x01010101) & 0xFFFFFFFF
+                        used_crcs.add(c2[key])
+                    spec = build_spec(c2)
+                    env.world.device = SimDevice(spec)
+                    label = label + ' second-tables(nlog=%d nparam=%d)' % (len(spec['log_toc']), len(spec['param_toc']))
+                if case.get('notify') and spec['version'] >= 4 and spec['param_toc']:
+                    # unsolicited value-updated notifications while the tables are being downloaded
+                    def notifier(times=list(case['notify']), dev=env.world.device, nparam=len(spec['param_toc'])):
+                        t_prev = 0.0
+                        for k, (t_, idx) in enumerate(sorted(times)):
+                            s.sleep(max(0.0, t_ - t_prev))
+                            t_prev = t_
+                            if env.world.links and not env.world.links[-1].closed:
+                                i_ = idx % nparam
+                                env.world.links[-1].deliver(dev.value_updated_packet(i_, dev.values[i_]), delay=0.0)
+                    s.spawn(notifier, 'notifier')
                 try:
                     ok = cfharness.connect(env, cf, rec, wait_for='connected', timeout=400.0, step=0.5)
                 except (Deadlock, Horizon) as e:
@@ -220,7 +246,12 @@ def toc_case(draw, big=False):
             'nlen': draw(st.lists(st.integers(1, 22), min_size=1, max_size=4)), 'tshift': draw(st.integers(0, 9)),
             'log_crc': draw(_crc), 'param_crc': draw(_crc), 'needs_resending': resend, 'delays': delays,
             'cache': draw(st.sampled_from([False, False, True])), 'schedule': draw(_sched), 'extmod': draw(st.sampled_from([5, 2, 1, 3])),
-            'burst': draw(st.one_of(st.just([]), st.lists(st.integers(0, 30), max_size=6, unique=True)))}
+            'burst': draw(st.one_of(st.just([]), st.lists(st.integers(0, 30), max_size=6, unique=True))),
+            'notify': draw(st.one_of(st.just([]), st.lists(st.tuples(st.sampled_from([0.004, 0.008, 0.012, 0.016, 0.02, 0.03, 0.05, 0.1, 0.25]), st.integers(0, 20)),
+                                                           max_size=4).map(lambda l: [list(x) for x in l]))),
+            'second': draw(st.one_of(st.none(), st.none(), st.fixed_dictionaries({'nlog': _size, 'nparam': _size, 'tshift': st.integers(0, 9),
+                                                                                 'log_crc': _crc, 'param_crc': _crc,
+                                                                                 'nlen': st.lists(st.integers(1, 22), min_size=1, max_size=4)})))}
 
 
 def subchecks(tier):
